@@ -42,3 +42,19 @@ import SparseSpace.Properties.C04b
 #print axioms SparseSpace.fwdClosed_update
 #print axioms SparseSpace.raiseLoop_fix
 #print axioms SparseSpace.step_nr
+-- positive side (Properties/C04c.lean, Lemmas/DimWiseKeep{Pair,Pts,Tab,Main}.lean): (H_keep) for ALL histories without rebalancing, versions 6/7/8 (and 3 with exact rounding), dim = 2 or lmax - lmin <= 2
+#print axioms SparseSpace.C04c.dimwise_keeps_initial_of_class
+#print axioms SparseSpace.C04c.dimwise_keeps_initial_v678
+#print axioms SparseSpace.C04c.dimwise_keeps_initial_v6_dim2
+#print axioms SparseSpace.C04c.dimwise_keeps_initial_v6_span2
+#print axioms SparseSpace.C04c.loopOK_678
+#print axioms SparseSpace.C04c.dimwise_keeps_initial_v3_exact
+#print axioms SparseSpace.v3Exact_ok
+#print axioms SparseSpace.keepsInitial_of_shape
+#print axioms SparseSpace.witness_in_index_set
+#print axioms SparseSpace.good_dim
+#print axioms SparseSpace.mMax_pair
+#print axioms SparseSpace.pair_bound
+#print axioms SparseSpace.scheme_tabulated
+#print axioms SparseSpace.run_ub
+#print axioms SparseSpace.dyadic_in_initObjs
